@@ -243,6 +243,13 @@ pub fn late_family(seed: u64) -> String {
 }
 
 pub fn search(_tag: &str, tier: &str) -> Option<Value> {
+    // three-item kernels whose later pairs decide compatibility; grammars on which the pager leaves unreachable states behind
+    for g in ["%start S\n%%\nS: 'a' E 'c' | 'a' E 'd' | 'a' F 'c' | 'a' G 'd' | 'b' E 'c' | 'b' E 'd' | 'b' F 'd' | 'b' G 'c';\nF: 'e' 'q';\nE: 'e' 'p';\nG: 'e' 'q';",
+              "%start S\n%%\nS: C 'c' E | 'a' | 'b' 'b';\nC: 'c' | 'b' 'a' 'd';\nE: S 'd' | C;", "%start S\n%%\nS: 'a' A;\nA: 'a' S S 'b' | C 'a' 'b';\nC: 'a' S A | 'c';",
+              "%start S\n%%\nS: 'a' 'a' A | A 'b' | ;\nA: 'a' S 'a' | 'a' 'b';"] {
+        let o = run(g);
+        if o.fails { return Some(witness("c02_lr1", json!({"grammar": g}), &o)); }
+    }
     // rules that derive no sentence: no token can follow them, and the closure must not add items without lookaheads
     for g in ["%start S\n%%\nS: S A S;\nA: 'a';", "%start S\n%%\nS: S S S;", "%start S\n%%\nS: 'b' S A | 'c';\nA: A 'a';", "%start S\n%%\nS: 'b' 'a' S A | 'd' 'c' | A 'c' 'd';\nA: A 'b' 'b';"] {
         let o = run(g);
